@@ -17,7 +17,7 @@ from checks.common.cases import explore_cases, run_case
 PROP = 'C12'
 LEVEL = 'exploration'
 SHARDS = {'quick': 4, 'thorough': 16}
-BUDGET_S = {'quick': 40, 'thorough': 400}
+BUDGET_S = {'quick': 150, 'thorough': 400}
 RULE = ('streams of 0-300 bytes over the alphabet {a, b, CR, LF} (delimiters of 1-3 bytes, self-overlapping '
         'ones included, straddle chunk edges); all 2^(n-1) compositions of short streams (n <= 10; 12 in '
         'thorough) systematically, then random compositions down to one byte at a time; recvsize 1-64; maxsize '
